@@ -298,8 +298,13 @@ def collect(repo):
 
     items = []
     for m in sorted(pkgutil.iter_modules(gen_parts.__path__), key=lambda m: m.name):
-        mod = importlib.import_module(f"harness.gen_parts.{m.name}")
-        for it in mod.items(g):
+        try:
+            mod = importlib.import_module(f"harness.gen_parts.{m.name}")
+            part_items = list(mod.items(g))
+        except Exception as e:  # a part under development must not break the other properties
+            sys.stderr.write(f"gen_lean: part {m.name} failed: {type(e).__name__}: {e}\n")
+            continue
+        for it in part_items:
             it["part"] = m.name
             items.append(it)
     return items
@@ -317,11 +322,13 @@ def generate(repo, outdir, relock=False):
             v, loc = it["fn"]()
             txt = to_lean(it["ty"], v)
             located = True
-        except Unlocated as e:
+        except Exception as e:
             located = False
             loc = f"unlocated ({e})"
             if key not in lock:
-                raise RuntimeError(f"gen_lean: {key} cannot be located and has no lock value: {e}")
+                sys.stderr.write(f"gen_lean: {key} cannot be located and has no lock value: {e}\n")
+                unlocated.append(key)
+                continue
             txt = lock[key]
         newlock[key] = txt
         if not located:
